@@ -4,52 +4,14 @@
    (chi2_contingency, log-likelihood, Yates) is an oracle [gstat : table -> Q].
    Executable, total; constants from Gen/CenterDefaults.v.  No proofs here. *)
 From CNV Require Import Base.Prelude Base.Str Base.QNum Gen.CenterDefaults Model.Center.
+From CNV Require Model.Descriptives.
 Local Open Scope Q_scope.
 
-(* ---- descriptives.weighted_median (NaN-free, equal lengths) ------------------ *)
-(* stable insertion sort of (value, weight) pairs by value (a.argsort()) *)
-Fixpoint vw_insert (p : Q * Q) (l : list (Q * Q)) : list (Q * Q) :=
-  match l with
-  | [] => [p]
-  | q :: t => if qle_b (fst p) (fst q) then p :: l else q :: vw_insert p t
-  end.
-Fixpoint vw_sort (l : list (Q * Q)) : list (Q * Q) :=
-  match l with [] => [] | p :: t => vw_insert p (vw_sort t) end.
-
-(* a[weights.argmax()]: value of the first pair of maximal weight *)
-Fixpoint vw_argmax (best : Q * Q) (l : list (Q * Q)) : Q * Q :=
-  match l with
-  | [] => best
-  | p :: t => if qlt_b (snd best) (snd p) then vw_argmax p t else vw_argmax best t
-  end.
-
-(* first position whose cumulative weight reaches the midpoint; exactly on it (and not the last
-   element): mean with the next value.  Exhausted (impossible for weights >= 0): last value *)
-Fixpoint vw_scan (mid acc : Q) (l : list (Q * Q)) : Q :=
-  match l with
-  | [] => 0
-  | (a, w) :: t =>
-      let acc' := qadd acc w in
-      match t with
-      | [] => a
-      | (b, _) :: _ =>
-          if qlt_b acc' mid then vw_scan mid acc' t
-          else if qeq_b acc' mid then qdiv (qadd a b) 2
-          else a
-      end
-  end.
-
-Definition weighted_median (a w : list Q) : Q :=
-  match a with
-  | [] => 0                         (* NaN in the code *)
-  | [x] => x
-  | _ =>
-      let s := vw_sort (combine a w) in
-      let mid := qmul (1 # 2) (qsum (map snd s)) in
-      if existsb (fun p => qlt_b mid (snd p)) s
-      then match s with [] => 0 | p :: t => fst (vw_argmax p t) end
-      else vw_scan mid 0 s
-  end.
+(* ---- descriptives.weighted_median: C19's model (Model/Descriptives.v: stable argsort, the
+   majority-weight shortcut, the tie test with its rounding tolerance).  None (NaN: empty input)
+   cannot arise below: every sample handed to it is non-empty. ------------------------------ *)
+Definition wmed (a w : list Q) : Q :=
+  match Descriptives.weighted_median a w with Some v => v | None => 0 end.
 
 (* ---- Mood's median test: the contingency table (ties="ignore") -------------- *)
 Definition mtable := (Z * Z * Z * Z)%type.     (* above: sample 1, sample 2; below: sample 1, sample 2 *)
@@ -82,18 +44,28 @@ Definition mood_stat (gstat : mtable -> Q) (s1 s2 : list Q) : option Q :=
 (* ---- compare_to_auto / compare_chrom ---------------------------------------- *)
 Definition med_diff (auto_l : list Q) (auto_w : option (list Q)) (vals : list Q) (w : option (list Q)) : Q :=
   match auto_w, w with
-  | Some aw, Some vw => qabs (qsub (weighted_median auto_l aw) (weighted_median vals vw))
+  | Some aw, Some vw => qabs (qsub (wmed auto_l aw) (wmed vals vw))
   | _, _ => qabs (qsub (median auto_l) (median vals))
+  end.
+
+(* the "maleness" ratio of one chromosome from the two test results and the two median differences *)
+Definition lr_of (female_stat male_stat : option Q) (f_diff m_diff : Q) : Q :=
+  match female_stat, male_stat with
+  | Some fs, Some ms => qdiv fs (qmax2 ms lr_denominator_floor)
+  | _, _ => qdiv f_diff (qmax2 m_diff lr_denominator_floor)
   end.
 
 Definition male_lr (gstat : mtable -> Q) (auto_l : list Q) (auto_w : option (list Q))
   (vals : list Q) (w : option (list Q)) (female_shift male_shift : Q) : Q :=
   let fv := map (fun x => qadd x female_shift) vals in
   let mv := map (fun x => qadd x male_shift) vals in
-  match mood_stat gstat auto_l fv, mood_stat gstat auto_l mv with
-  | Some fs, Some ms => qdiv fs (qmax2 ms lr_denominator_floor)
-  | _, _ => qdiv (med_diff auto_l auto_w fv w) (qmax2 (med_diff auto_l auto_w mv w) lr_denominator_floor)
-  end.
+  lr_of (mood_stat gstat auto_l fv) (mood_stat gstat auto_l mv)
+        (med_diff auto_l auto_w fv w) (med_diff auto_l auto_w mv w).
+
+(* combined score (chrY only when it has bins) and the decision *)
+Definition score_of (x_lr : Q) (y_lr : option Q) : Q :=
+  match y_lr with Some y => qmul x_lr y | None => x_lr end.
+Definition is_xy_of (score : Q) : bool := qlt_b score_cut score.
 
 (* ---- the table-level function ----------------------------------------------- *)
 Definition has_weight (t : list bin) : bool :=
@@ -146,10 +118,10 @@ Definition compare_sex (gstat : mtable -> Q) (hap : bool) (build : option parb) 
                   | _ => Some (male_lr gstat auto_l auto_w (map b_log2 chry) (opt_weights use chry)
                                  y_shift_female y_shift_male)
                   end in
-      let score := match y_lr with Some y => qmul x_lr y | None => x_lr end in
+      let score := score_of x_lr y_lr in
       let am := match segment_mean use auto with Some m => m | None => 0 end in
       let xm := match segment_mean use chrx with Some m => m | None => 0 end in
-      Some (qlt_b score_cut score,
+      Some (is_xy_of score,
             mkStats score x_lr y_lr (qsub xm am)
                     (match segment_mean use chry with Some m => Some (qsub m am) | None => None end))
     end
@@ -176,6 +148,11 @@ Definition expect_flat (hap : bool) (build : option parb) (t : list bin) : list 
          let hit := if hap then chr_x_filter t build b || chr_y_filter t build b
                     else chr_y_filter t None b in
          if hit then flat_sex_level else 0) t.
+
+(* is_haploid_x_reference=None: `not self.guess_xx(diploid_parx_genome=..., verbose=False)` -- the
+   guess runs with the default (diploid-reference) shifts; "no chrX" (None) reads as haploid *)
+Definition expect_flat_guess gstat (build : option parb) (t : list bin) : list Q :=
+  expect_flat (match guess_xx gstat false build t with Some xx => negb xx | None => true end) build t.
 
 (* ---- one row of commands.do_sex: (sex, X_logratio, Y_logratio) before formatting;
         the outer None of the ratios is "NA", the inner None (Y) is NaN -------------- *)
